@@ -2,7 +2,7 @@
    RFC 6455 5.2 (any FIN/RSV/opcode/mask, each of the three length forms, any payload), and refuses
    a 64-bit length with the top bit set -- so "every byte stream" in c14_refines_rfc covers every
    frame sequence. *)
-From Verif Require Import Lib.Base Lib.Sx Lib.Utf8 Model.WsRead Proofs.WsReadUtf8 Proofs.WsRead Proofs.WsReadCut.
+From Verif Require Import Lib.Base Lib.Sx Lib.Utf8 Model.WsRead Proofs.WsReadUtf8 Proofs.WsRead Proofs.WsReadRefine Proofs.WsReadCut.
 Open Scope N_scope.
 
 Ltac Zify.zify_post_hook ::= Z.div_mod_to_equations.
@@ -110,4 +110,111 @@ Qed.
 Example frame_example :
   rfc_header (ser_frame true 0 1 true 16 [1; 2; 3; 4] [104; 105] ++ [7]) =
   HOk (mkHdr true 0 1 true true 2 [1; 2; 3; 4]) [105; 107; 7].
+Proof. vm_compute. reflexivity. Qed.
+
+(* ------------------------------------------------------------------ valid frames are consumed as the RFC says *)
+(* one step of the receiver on a well-formed data frame (first frame of a message when none is
+   open, continuation otherwise), any of the length forms, masked as the role requires, within the
+   size bound: its payload joins the open message, which is delivered when FIN is set *)
+Theorem rfc_recv_data_frame server cap fuel open fin op form key payload rest evs :
+  form_ok form (lenN payload) -> lenN payload < two63 -> length key = 4%nat ->
+  (match open with Some _ => op = 0 | None => op = 1 \/ op = 2 end) ->
+  snd (open_parts open (mkHdr fin 0 op server (negb (form =? 7)) (lenN payload) [])) + lenN payload <= cap ->
+  rfc_recv (S fuel) server cap open (ser_frame fin 0 op server form key payload ++ rest) evs =
+  (let '(t, fr, n) := open_parts open (mkHdr fin 0 op server (negb (form =? 7)) (lenN payload) []) in
+   if fin then rfc_recv fuel server cap None rest (EvMsg t (concat (rev' (payload :: fr))) :: evs)
+   else rfc_recv fuel server cap (Some (t, payload :: fr, n + lenN payload)) rest evs).
+Proof.
+  intros Hf Hl Hk Hop Hcap.
+  assert (Ho : op < 16) by (destruct open; [subst; lia|destruct Hop; subst; lia]).
+  destruct (frame_parses_back fin 0 op server form key payload rest ltac:(lia) Ho Hf Hl Hk)
+    as (h & Eh & F1 & F2 & F3 & F4 & F5 & Ep).
+  cbn [rfc_recv]. rewrite Eh.
+  assert (Hv : rfc_violation server (match open with Some _ => true | None => false end) h = false).
+  { unfold rfc_violation. rewrite F1, F2, F3, F4, F5. rewrite Bool.eqb_reflx. cbn [N.eqb negb orb].
+    destruct open; [subst op; reflexivity|destruct Hop; subst op; reflexivity]. }
+  rewrite Hv.
+  replace (8 <=? f_op h) with false by (symmetry; apply N.leb_gt; rewrite F3; destruct open; [subst; lia|destruct Hop; subst; lia]).
+  rewrite Ep, F1, F5.
+  assert (Eo : match open with Some o => o | None => (f_op h, [], 0) end =
+               open_parts open (mkHdr fin 0 op server (negb (form =? 7)) (lenN payload) [])).
+  { unfold open_parts. destruct open; [reflexivity|]. cbn [f_op]. rewrite F3. reflexivity. }
+  rewrite Eo. destruct (open_parts open _) as [[t fr] n]. cbn [snd] in Hcap.
+  replace (cap <? n + lenN payload) with false by (symmetry; apply N.ltb_ge; exact Hcap). reflexivity.
+Qed.
+
+(* non-vacuity, chained: text "hi" in two fragments (16-bit and 7-bit length form), server role
+   (masked), followed by other bytes *)
+Example data_frames_example :
+  fst (rfc_receive true 0 (ser_frame false 0 1 true 16 [1; 2; 3; 4] [104] ++ ser_frame true 0 0 true 7 [9; 9; 9; 9] [105]))
+  = [EvMsg 1 [104; 105]].
+Proof. vm_compute. reflexivity. Qed.
+
+(* ------------------------------------------------------------------ a message under any fragmentation *)
+(* a chunk = (length form, masking key, payload) *)
+Definition chunk := (N * bytes * bytes)%type.
+Definition chunk_ok (c : chunk) : Prop :=
+  let '(form, key, p) := c in form_ok form (lenN p) /\ length key = 4%nat.
+
+Fixpoint ser_chunks (server first : bool) (op : N) (chunks : list chunk) : bytes :=
+  match chunks with
+  | [] => []
+  | (form, key, p) :: more =>
+    ser_frame (match more with [] => true | _ => false end) 0 (if first then op else 0) server form key p
+    ++ ser_chunks server false op more
+  end.
+
+Definition chunks_payload (chunks : list chunk) : bytes := concat (map (fun c : chunk => snd c) chunks).
+
+Lemma rfc_recv_chunks server cap : forall chunks open fuel rest evs t fr n,
+  chunks <> [] -> Forall chunk_ok chunks -> cap < two63 ->
+  (match open with Some o => o = (t, fr, n) | None => (t = 1 \/ t = 2) /\ fr = [] /\ n = 0 end) ->
+  n + lenN (chunks_payload chunks) <= cap ->
+  rfc_recv (length chunks + fuel) server cap open
+           (ser_chunks server (match open with None => true | Some _ => false end) t chunks ++ rest) evs =
+  rfc_recv fuel server cap None rest (EvMsg t (concat (rev fr) ++ chunks_payload chunks) :: evs).
+Proof.
+  induction chunks as [|[[form key] p] more IH]; intros open fuel rest evs t fr n Hne Hok Hcap Hop Hsum; [contradiction|].
+  inversion Hok as [|? ? Hc Hok']; subst. cbn in Hc. destruct Hc as [Hf Hk].
+  unfold chunks_payload in Hsum. cbn [map concat snd] in Hsum. rewrite !lenN_length, app_length, Nat2N.inj_add in Hsum.
+  fold (chunks_payload more) in Hsum.
+  cbn [ser_chunks length plus]. rewrite <- app_assoc.
+  set (op := if match open with None => true | Some _ => false end then t else 0).
+  assert (Hopen : match open with Some _ => op = 0 | None => op = 1 \/ op = 2 end).
+  { unfold op. destruct open; [reflexivity|]. destruct Hop as (H & _). exact H. }
+  assert (Hparts : open_parts open (mkHdr (match more with [] => true | _ => false end) 0 op server (negb (form =? 7)) (lenN p) []) = (t, fr, n)).
+  { unfold open_parts, op. destruct open as [o|]; [exact Hop|]. destruct Hop as (_ & -> & ->). reflexivity. }
+  rewrite rfc_recv_data_frame; auto.
+  2:{ rewrite lenN_length. unfold two63 in *. lia. }
+  2:{ rewrite Hparts. cbn [snd]. rewrite lenN_length. lia. }
+  rewrite Hparts.
+  destruct more as [|c2 more'].
+  - (* last fragment *)
+    cbn [ser_chunks app length plus]. unfold chunks_payload. cbn [map concat snd]. rewrite app_nil_r, rev'_rev.
+    cbn [rev]. rewrite concat_app. cbn [concat]. rewrite app_nil_r. reflexivity.
+  - specialize (IH (Some (t, p :: fr, n + lenN p)) fuel rest evs t (p :: fr) (n + lenN p)).
+    cbn [length plus] in IH |- *. rewrite IH; auto; try discriminate.
+    + unfold chunks_payload. cbn [map concat snd rev]. rewrite concat_app. cbn [concat]. rewrite app_nil_r, <- !app_assoc.
+      reflexivity.
+    + rewrite !lenN_length. lia.
+Qed.
+
+(* A message of type op (1 text / 2 binary) sent as ANY non-empty sequence of fragments -- each in any
+   admissible length form, with any key, of any size, the total within the receiver's bound -- is
+   delivered as one message with the concatenated payload, and the receiver goes on with what
+   follows.  (By c14_refines_rfc the library returns exactly that message.) *)
+Theorem message_any_fragmentation server limit op chunks rest :
+  chunks <> [] -> Forall chunk_ok chunks -> op = 1 \/ op = 2 -> (limit < 9223372036854775808)%Z ->
+  lenN (chunks_payload chunks) <= rfc_cap limit ->
+  forall fuel, rfc_recv (length chunks + fuel) server (rfc_cap limit) None (ser_chunks server true op chunks ++ rest) [] =
+               rfc_recv fuel server (rfc_cap limit) None rest [EvMsg op (chunks_payload chunks)].
+Proof.
+  intros Hne Hok Hop Hl Hsum fuel.
+  rewrite (rfc_recv_chunks server (rfc_cap limit) chunks None fuel rest [] op [] 0); auto.
+  unfold rfc_cap, two63. destruct (0 <? limit)%Z eqn:E; [apply Z.ltb_lt in E|]; lia.
+Qed.
+
+Example fragmentation_example :
+  rfc_receive false 5 (ser_chunks false true 2 [(7, [], [1; 2]); (16, [], [3]); (64, [], [4; 5])] ++ [137; 0])
+  = ([EvMsg 2 [1; 2; 3; 4; 5]; EvPong []], OCut false).
 Proof. vm_compute. reflexivity. Qed.
